@@ -165,6 +165,11 @@ func (p *Proposal) data() ([]byte, error) {
 		return nil, err
 	}
 
+	// The checksum and size of the decompressed data is verified on Close.
+	if err := r.Close(); err != nil {
+		return nil, err
+	}
+
 	return buf.Bytes(), nil
 }
 
